@@ -249,9 +249,9 @@ theorem inv3_unset {s : State} {t : Tid} {f : Frame} {rest : List Frame} {p : PC
       simp only [hother t1 ht u hu, ↓reduceIte] at h
       exact hR h
 
-theorem inv3_pop {P : Project} {s : State} {t : Tid} {f : Frame} {rest : List Frame} {r : Res} {ld fl : Mod → Bool} {ft : Mod → Nat}
+theorem inv3_pop {P : Project} {s : State} {t : Tid} {f : Frame} {rest : List Frame} {r : Res} {ld : Mod → Bool} {fl : Mod → Res} {ft : Mod → Nat}
     (inv1 : Inv1 P s) (inv2 : Inv2 s) (inv : Inv3 s) (hpc : s.pc t = .fin r) (hst : s.stack t = f :: rest) :
-    Inv3 { s with loaded := ld, failed := fl, ftime := ft, clock := s.clock + 1,
+    Inv3 { s with loaded := ld, result := fl, ftime := ft, clock := s.clock + 1,
                   stack := upd s.stack t rest, pc := upd s.pc t (.unset r) } := by
   have hrest := mem_stack_ne_of_nodup inv2 hst
   have hother : ∀ t1, t1 ≠ t → ∀ g ∈ s.stack t1, g.mod ≠ f.mod :=
@@ -300,8 +300,9 @@ theorem inv3_pop {P : Project} {s : State} {t : Tid} {f : Frame} {rest : List Fr
 theorem inv3_fstep {P : Project} {s s' : State} {t : Tid} (inv1 : Inv1 P s) (inv2 : Inv2 s) (inv : Inv3 s)
     (st : FStep P s t s') : Inv3 s' := by
   cases st
-  case runFin f rest hpc hst htd => exact inv3_setPc inv (fun _ _ _ => by simp [topPtr, hpc])
-  case runCall f rest d ds hpc hst htd => exact inv3_setPc inv (fun _ _ _ => by simp [topPtr, hpc])
+  case runBroken f rest hpc hst hb => exact inv3_setPc inv (fun _ _ _ => by simp [topPtr, hpc])
+  case runFin f rest hpc hst hb htd => exact inv3_setPc inv (fun _ _ _ => by simp [topPtr, hpc])
+  case runCall f rest d ds hpc hst hb htd => exact inv3_setPc inv (fun _ _ _ => by simp [topPtr, hpc])
   case callFound d hpc hr => exact inv3_setPc inv (fun _ _ _ => by simp [topPtr, hpc])
   case callNew d hpc hr =>
     refine inv3_of_eq inv rfl rfl rfl rfl (fun t1 f rest _ => ?_)
@@ -329,12 +330,12 @@ theorem inv3_fstep {P : Project} {s s' : State} {t : Tid} (inv1 : Inv1 P s) (inv
     simp [topPtr, hpc, inv1.tgt_frame t f rest d h (by simp [hpc, target])]
   case unsetRoot r hpc hst => exact inv3_setPc inv (fun f rest h => by simp [hst] at h)
   case unsetOk f rest hpc hst => exact inv3_unset (p := .run) (td := f.todo.tail) inv2 inv hst rfl
-  case unsetCyc f rest hpc hst =>
+  case unsetFail r f rest hpc hr hst =>
     have e : upd s.stack t (⟨f.mod, f.todo⟩ :: rest) = s.stack := by
       funext x; simp only [upd]; split
       · rename_i h; subst h; simp [hst]
       · rfl
-    have := inv3_unset (p := .fin .cyc) (td := f.todo) inv2 inv hst rfl
+    have := inv3_unset (p := .fin r) (td := f.todo) inv2 inv hst rfl
     rw [e] at this
     exact this
   case fin r f rest hpc hst => exact inv3_pop inv1 inv2 inv hpc hst
